@@ -413,6 +413,9 @@ pub fn summarize(ctx: &Ctx, results: &[ItemResult], rule: &str) -> Coverage {
         if r.stats.capped {
             capped.push(r.label.clone());
         }
+        if r.stats.unreproducible_prefixes > 0 {
+            capped.push(format!("{} ({} prefixes the environment did not reproduce were left unexplored)", r.label, r.stats.unreproducible_prefixes));
+        }
     }
     if let Some(r) = results.first() {
         ctx.sample(r.sample.clone());
@@ -430,7 +433,7 @@ pub fn summarize(ctx: &Ctx, results: &[ItemResult], rule: &str) -> Coverage {
         rule: rule.to_owned(),
         exhaustive: capped.is_empty(),
         bound: json!({"deviations": bound, "scenarios": results.len()}),
-        caps_hit: capped.iter().map(|c| format!("execution cap reached for {c}")).collect(),
+        caps_hit: capped.iter().map(|c| if c.contains("left unexplored") { c.clone() } else { format!("execution cap reached for {c}") }).collect(),
         assumptions: vec![
             "the simulated kernel only produces behaviours a Linux kernel may produce (short counts, EAGAIN followed by a fresh edge, reordered / split readiness batches); EINTR, ENOBUFS and real TCP timing are not modelled".into(),
             "loopback TCP is used as a lossless ordered pipe; all back-pressure is injected by the interposer".into(),
